@@ -276,15 +276,30 @@ async def case_lines(spec: dict[str, Any], ctx: Ctx) -> None:
                     spec['seed'] % 5 == 0:
                 # a "pumped" pair: a long name made of one unit, then a
                 # pattern of many wildcards that almost matches it
-                unit = rng.choice([b'a', b'ab', b'x/', b'a.'])
-                name = unit * rng.choice([30, 60, 120])
-                stars = rng.choice([6, 10, 16, 30])
-                wc = rng.choice([b'*', b'%', b'*%'])
+                if rng.random() < 0.6:
+                    unit = rng.choice([b'a', b'ab', b'x/', b'a.'])
+                    name = unit * rng.choice([30, 60, 120])
+                    stars = rng.choice([6, 10, 16, 30])
+                    wc = rng.choice([b'*', b'%', b'*%'])
+                    body = rng.choice([b'LIST', b'LSUB']) + b' "" "' + \
+                        (unit + wc) * stars + b'!"'
+                    ctx.count('pumped_patterns')
+                else:
+                    # ... or a name of hundreds of levels (a listing of n
+                    # levels is n^2/2 characters long: 1000 is what fits
+                    # the step budget)
+                    name = b'/'.join([rng.choice([b'a', b'd'])] *
+                                     rng.choice([300, 700, 1000]))
+                    body = rng.choice([
+                        b'LIST "" *', b'LIST "" %', b'LSUB "" *',
+                        b'RENAME a zz', b'DELETE a', b'LIST "" "*/%"',
+                        b'STATUS ' + name + b' (MESSAGES)'])
+                    ctx.count('deep_names')
                 await send_line(ctx, conn, b'p%d CREATE "%s"\r\n' % (k, name),
                                 'CREATE of a pumped name')
-                body = rng.choice([b'LIST', b'LSUB']) + b' "" "' + \
-                    (unit + wc) * stars + b'!"'
-                ctx.count('pumped_patterns')
+                if rng.random() < 0.5:
+                    await send_line(ctx, conn, b'q%d SUBSCRIBE "%s"\r\n'
+                                    % (k, name), 'SUBSCRIBE of a pumped name')
             r = rng.random()
             if r < 0.92:
                 tag = b'f%d' % k
@@ -550,6 +565,7 @@ class C06(Check):
             'were judged')
     assumptions = [
         'bounded steps = 5M JUMP|PY_START monitoring events per command line '
+        'plus 400 per byte of output '
         '(observed maximum is recorded in the evidence)',
         'lines are kept below the 64 KiB StreamReader limit; TLS handshake '
         'is a no-op on the in-memory transport']
@@ -596,6 +612,11 @@ class C06(Check):
 
     def setup_worker(self) -> None:
         BUDGET.install()
+        # 5M steps per command line plus 400 per byte of output: a listing of
+        # a 1000-level name is half a megabyte, encoded character by
+        # character in Python
+        from ..net import MemWriter
+        MemWriter.on_bytes = lambda n: BUDGET.credit(400 * n)
 
     def on_worker_death(self, rec: dict[str, Any]) -> dict[str, Any] | None:
         if rec.get('status') == -signal.SIGVTALRM:
